@@ -83,24 +83,25 @@ Fixpoint values_of (k : str) (l : list (str * vitem)) : list vitem :=
   | (k', v) :: r => if str_eqb k' k then v :: values_of k r else values_of k r
   end.
 
-Fixpoint without (k : str) (l : list (str * vitem)) : list (str * vitem) :=
+(* the distinct names, in order of first appearance *)
+Definition remove_key (k : str) (ks : list str) : list str := filter (fun x => negb (str_eqb x k)) ks.
+
+Fixpoint first_keys (l : list (str * vitem)) : list str :=
   match l with
   | [] => []
-  | (k', v) :: r => if str_eqb k' k then without k r else (k', v) :: without k r
+  | (k, _) :: r => k :: remove_key k (first_keys r)
   end.
 
-Fixpoint group (fuel : nat) (l : list (str * vitem)) : list (str * vval) :=
-  match fuel with
-  | O => []
-  | S f =>
-    match l with
-    | [] => []
-    | (k, v) :: r =>
-      (k, match values_of k r with [] => VSingle v | vs => VMulti (v :: vs) end) :: group f (without k r)
-    end
+Definition mkv (vs : list vitem) : vval :=
+  match vs with
+  | [x] => VSingle x
+  | _ => VMulti vs
   end.
 
-Definition grouped (l : list (str * vitem)) : list (str * vval) := group (length l) l.
+(* a dictionary: every distinct name once, in order of first appearance, bound
+   to its only value or to the list of all its values in submission order *)
+Definition grouped (l : list (str * vitem)) : list (str * vval) :=
+  map (fun k => (k, mkv (values_of k l))) (first_keys l).
 
 Definition is_text (f : fld) : bool := match f with FText _ _ => true | _ => false end.
 
